@@ -220,3 +220,41 @@ def simplifications(script: dict) -> Iterator[dict]:
             c = clone()
             c["ops"][i]["at_us"] = 0
             yield c
+
+
+def abstract_states(script: dict, run: Any) -> set:
+    """Coverage measure only (never used by an oracle): distinct abstract worker states
+    (running callbacks, taken-but-not-started, shutdown phase, A, P) seen at any event."""
+    cfg = script["config"]
+    A, P = cfg.get("A") or 0, cfg.get("P", 0)
+    live: Dict[str, int] = {}
+    queued: Dict[str, int] = {}
+    phase: Dict[str, int] = {}
+    node_of: Dict[Any, str] = {}
+    out = set()
+    for e in run.events:
+        kind, node = e[3], e[2]
+        if kind == "take":
+            node_of[e[4]] = node
+            queued[node] = queued.get(node, 0) + 1
+        elif kind == "cb_enter":
+            queued[node] = queued.get(node, 0) - 1
+            live[node] = live.get(node, 0) + 1
+        elif kind == "cb_exit":
+            live[node] = live.get(node, 0) - 1
+        elif kind == "stop_set":
+            n = f"w{e[5]['w']}" if e[5]["gen"] == 0 else f"w{e[5]['w']}.{e[5]['gen']}"
+            phase[n] = 1
+            node = n
+        elif kind == "listen_return":
+            n = f"w{e[5]['w']}" if e[5]["gen"] == 0 else f"w{e[5]['w']}.{e[5]['gen']}"
+            phase[n] = 2
+            node = n
+        elif kind == "crash":
+            n = f"w{e[5]['w']}" if e[5]["gen"] == 0 else f"w{e[5]['w']}.{e[5]['gen']}"
+            phase[n] = 3
+            node = n
+        else:
+            continue
+        out.add((min(live.get(node, 0), 6), min(max(queued.get(node, 0), 0), 6), phase.get(node, 0), A, P))
+    return out
